@@ -18,7 +18,8 @@ def c06():
               "channels (socketpair read, socketpair write, 1-12 ms timers) of add/enable/disable/delete (on the owning thread or from "
               "outside; also through tpt_ev_enable_args1(), which has no flags argument and must keep the registered ones), peer write, drain, peer close, half close, sleep, descriptor reuse (both ends closed without a delete and a new socket pair "
               "on the same number while the user record keeps its state), pipe write ends whose reader closes (error condition), timers named after the "
-              "descriptor number of another channel; a per-channel model predicts silent / exactly-once / at-least-once; negative "
+              "descriptor number of another channel (also as the template 'registration + timer named after it, the timer reports first'), registrations made on the pool's "
+              "virtual thread; a per-channel model predicts silent / exactly-once / at-least-once; negative "
               "claims are sequenced through the owning thread with fences, awaited callbacks use a 20 s ceiling (3 of 3 runs). (c) ev_proc: "
               "rapidcheck histories over 1-3 real child processes (forked by the harness, exit code 0..255 or killed by SIGKILL) of "
               "add/enable/disable/delete (valid and malformed flags / filter flags, in-thread or from outside), child exit and sleep, also for "
